@@ -413,6 +413,17 @@ func (f *flow) Start(ctx context.Context) {
 								verifhook.Point("flow.fork")
 								handle(ctx)
 							}
+							if !flowed {
+								// The first sequence flow was not taken (its condition
+								// is false) while others were: the token has moved on
+								// with the newly started flows, so this flow ends here
+								// instead of asking the node for another action.
+								f.tracer.Send(TerminationTrace{
+									FlowId: f.Id(),
+									Source: source,
+								})
+								return
+							}
 						} else {
 							// no flows to continue with, abort
 							f.tracer.Send(TerminationTrace{
